@@ -184,7 +184,9 @@ def r2_rewind(ctx, rule='C12.R2', only=None, floor=6):
                 why = 'the consuming call is not inside a try'
                 for t in tries:
                     for h in t.handlers:
-                        if not is_catch_all(h, accept_exception=True):
+                        # a coroutine can be cancelled at any await (CancelledError is a BaseException): `except Exception` would leave
+                        # the caller's stream half-consumed, and the next use of it transfers / hashes only the tail
+                        if not is_catch_all(h, accept_exception=not f.is_async):
                             why = f'the handler catches only ({", ".join(handler_catches(h))}): other exceptions that trigger a retry (e.g. AuthRequired, OSError) leave the stream un-rewound'
                             continue
                         if not _rewinds(h.body, p):
@@ -227,7 +229,7 @@ def r2_rewind(ctx, rule='C12.R2', only=None, floor=6):
                     if isinstance(c2.func, ast.Attribute) and c2.func.attr in ('close', 'aclose') and not c2.args and any(isinstance(a, ast.Try) and any(is_within(c2, b) for b in a.finalbody) for a in ancestors(c2)):
                         continue
                     tries = [a for a in ancestors(c2) if isinstance(a, ast.Try) and any(is_within(c2, b) for b in a.body)]
-                    prot = any(is_catch_all(h, accept_exception=True) and _rewinds(h.body, p) and handler_reraises(h) for t in tries for h in t.handlers)
+                    prot = any(is_catch_all(h, accept_exception=not f.is_async) and _rewinds(h.body, p) and handler_reraises(h) for t in tries for h in t.handlers)
                     n += 1
                     ctx.check(
                         prot,
